@@ -1,5 +1,5 @@
 /-
-C06(a) proofs: the executable list endpoint `serve` (filter, mergeSort by (modified_at, uuid), take
+C06(a) proofs: the executable list endpoint `serve` (filter, insertion sort by (modified_at, uuid), take
 `limit`) returns a page in the sense of `PageOf`, provided uuids are unique and `limit ≥ 1`.
 -/
 import ArvVerif.Proofs.C06_Paging
@@ -38,19 +38,70 @@ theorem kleB_trans (a b c : Coll) : kleB a b = true → kleB b c = true → kleB
 theorem kleB_total (a b : Coll) : (kleB a b || kleB b a) = true := by
   unfold kleB; simp only [Bool.or_eq_true, decide_eq_true_eq]; omega
 
+theorem insertBy_perm (le : Coll → Coll → Bool) (a : Coll) : ∀ l, (insertBy le a l).Perm (a :: l) := by
+  intro l
+  induction l with
+  | nil => exact List.Perm.refl _
+  | cons b t ih =>
+    unfold insertBy
+    split
+    · exact List.Perm.refl _
+    · exact (List.Perm.cons b ih).trans (List.Perm.swap a b t)
+
+theorem isort_perm (le : Coll → Coll → Bool) : ∀ l, (isort le l).Perm l := by
+  intro l
+  induction l with
+  | nil => exact List.Perm.refl _
+  | cons a t ih => exact (insertBy_perm le a _).trans (List.Perm.cons a ih)
+
+theorem insertBy_sorted (a : Coll) : ∀ l, l.Pairwise (fun x y => kleB x y = true) →
+    (insertBy kleB a l).Pairwise (fun x y => kleB x y = true) := by
+  intro l
+  induction l with
+  | nil => intro _; simp [insertBy]
+  | cons b t ih =>
+    intro h
+    have hc := List.pairwise_cons.mp h
+    unfold insertBy
+    split
+    · rename_i hab
+      refine List.pairwise_cons.mpr ⟨?_, h⟩
+      intro y hy
+      rcases List.mem_cons.mp hy with rfl | hy'
+      · exact hab
+      · exact kleB_trans _ _ _ hab (hc.1 y hy')
+    · rename_i hab
+      have hba : kleB b a = true := by
+        have := kleB_total a b
+        simp only [Bool.or_eq_true] at this
+        rcases this with h1 | h1
+        · exact absurd h1 hab
+        · exact h1
+      refine List.pairwise_cons.mpr ⟨?_, ih hc.2⟩
+      intro y hy
+      rcases List.mem_cons.mp ((insertBy_perm kleB a t).mem_iff.mp hy) with rfl | hy'
+      · exact hba
+      · exact hc.1 y hy'
+
+theorem isort_sorted : ∀ l, (isort kleB l).Pairwise (fun x y => kleB x y = true) := by
+  intro l
+  induction l with
+  | nil => simp [isort]
+  | cons a t ih => exact insertBy_sorted a _ ih
+
 theorem serve_pageOf (db : List Coll) (f : Filt) (limit : Nat) (hl : 0 < limit)
     (hnd : (db.map Coll.uuid).Nodup) : PageOf db f limit (serve db f limit) := by
   unfold serve
   apply pageOf_take db _ f limit hl
   · intro c
-    rw [(List.mergeSort_perm _ _).mem_iff, List.mem_filter]
+    rw [(isort_perm _ _).mem_iff, List.mem_filter]
     simp
-  · have hs : ((db.filter (fun c => decide (f.ok c))).mergeSort kleB).Pairwise (fun a b => kleB a b = true) :=
-      List.pairwise_mergeSort kleB_trans kleB_total _
+  · have hs : (isort kleB (db.filter (fun c => decide (f.ok c)))).Pairwise (fun a b => kleB a b = true) :=
+      isort_sorted _
     have hsub : ((db.filter (fun c => decide (f.ok c))).map Coll.uuid).Nodup :=
       hnd.sublist (List.filter_sublist.map _)
-    have hn : (((db.filter (fun c => decide (f.ok c))).mergeSort kleB).map Coll.uuid).Nodup :=
-      ((List.mergeSort_perm _ _).map _).nodup_iff.mpr hsub
+    have hn : ((isort kleB (db.filter (fun c => decide (f.ok c)))).map Coll.uuid).Nodup :=
+      ((isort_perm _ _).map _).nodup_iff.mpr hsub
     have hn' := List.pairwise_map.mp hn
     refine (hs.and hn').imp ?_
     intro a b ⟨h1, h2⟩
